@@ -182,3 +182,10 @@ Fixpoint while_ok {S} (fuel : nat) (cond : S -> bool) (cond_ok : S -> bool)
 (* obligation switches: wI = index obligations on, wD = divisor obligations on *)
 Definition obI (w c : bool) : bool := if w then c else true.
 Definition obD (w c : bool) : bool := if w then c else true.
+
+(* first exception raised by a validation loop `for i in l: if c i: raise E` *)
+Fixpoint find_exc (f : Z -> option exn) (l : list Z) : option exn :=
+  match l with
+  | [] => None
+  | i :: t => match f i with Some e => Some e | None => find_exc f t end
+  end.
